@@ -30,7 +30,7 @@ def gen_cases(tag, mode, lits=(), binops=(), unops=(), funcs=(), funcs2=(), post
               workers=1, timeout=1200):
     """Run MC_ExprGen with the given constants; returns (texts, TlcResult)."""
     # TLC's cfg syntax has no tuples inside sets: the constants go into a generated module
-    mod = "Gen_%s" % tag
+    mod = "Gen_%s_%d" % (tag, os.getpid())      # two runs of one engine at the same time must not delete each other's module
     with open(os.path.join(vlib.SPEC, mod + ".tla"), "w") as f:
         f.write("---- MODULE %s ----\nEXTENDS MC_ExprGen\n" % mod)
         f.write("G_Lits == %s\nG_BinOps == %s\nG_UnOps == %s\nG_Funcs == %s\nG_Funcs2 == %s\nG_Chain == %s\nG_Signs == %s\nG_PostOps == %s\n" % (
